@@ -143,6 +143,7 @@ class Interp:
         self.const_axioms = {}
         self.auto_stub = None
         self.domain_events = []
+        self.int_narrowing = False       # True: a symbolic integer passed to / stored in an `int` is wrapped to 32 bits unless provably in range
         self.unknown_feasibility = 0     # branches kept only because the solver could not decide them (results built on them are not verdicts)
         self.nonfinite_unknown = False   # True: std::isfinite / allFinite / hasNaN are undetermined (both outcomes explored)
         self.loop_contracts = {}      # (function qualified name, ordinal of the while loop in the function) -> LoopContract
@@ -678,7 +679,13 @@ class Interp:
             if isinstance(v, Fraction):
                 return int(v)
             if is_sym(v) and z3.is_real(v):
-                return z3.ToInt(v)
+                v = z3.ToInt(v)
+            if is_sym(v) and z3.is_int(v) and n == 'int' and self.int_narrowing:
+                # implicit conversion to a 32-bit int (parameter passing, initialisation): two's complement wrap-around of a wider integer value.
+                # For a value that is in range this is the identity; the solver is told so when it can prove it.
+                if not self._provably_int_range(v):
+                    self.fire('int-narrowing')
+                    v = (v + 2**31) % 2**32 - 2**31
             return v
         if n == 'bool' and not ty.ptr:
             if isinstance(v, (int, float, Fraction)) and not isinstance(v, bool):
@@ -697,6 +704,18 @@ class Interp:
                 raise EvalError('complex matrix converted to real matrix')
             return v
         return v
+
+    def _provably_int_range(self, v):
+        s = z3.Solver()
+        s.set('timeout', 1500)
+        for a in self.assumptions:
+            s.add(a)
+        for a in self.sym.pc:
+            s.add(a)
+        for a in self.sym.guards:
+            s.add(a)
+        s.add(z3.Or(v < -2**31, v > 2**31 - 1))
+        return s.check() == z3.unsat
 
     def type_is_complex(self, ty):
         return isinstance(ty, Type) and strip_ns(ty.name) == 'std::complex'
@@ -1490,7 +1509,17 @@ class Interp:
                         self.fire('eigen-PlainObject')
                         z = 0.0 if self.mode == 'float' else 0
                         return Mat.fill(c.v.r, c.v.c, z, c.v.kind, c.v.cplx)
-        return self.zero_of_type(ty)
+        v = self.zero_of_type(ty)
+        # no initialiser: fixed-size Eigen objects and built-in scalars hold indeterminate values until they are written
+        where = '`%s` declared at %s:%d' % (d.name, self.cur_file(), d.line or self.cur_line)
+        if isinstance(v, Mat) and n in ('Eigen::Matrix', 'Eigen::Array'):
+            self.fire('uninitialised-local')
+            u = Undef(where)
+            return Mat(v.r, v.c, [[(Cx(u, u) if v.cplx else u) for _ in range(v.c)] for _ in range(v.r)], v.kind, v.cplx)
+        if n in ('double', 'float', 'int', 'unsigned', 'long', 'bool') and not ty.ptr and not ty.ref and v is not None and not isinstance(v, (Mat, Cx)):
+            self.fire('uninitialised-local')
+            return Undef(where)
+        return v
 
     def try_lvalue_cell(self, e):
         if isinstance(e, Id):
